@@ -18,7 +18,7 @@ from .abseval import ev, Unknown, Opaque, _BIN
 
 
 class Interp:
-    def __init__(self, call_hook=None, effect_names=(), budget=20000):
+    def __init__(self, call_hook=None, effect_names=(), budget=20000, resolver=None, depth=0):
         """call_hook(call_node, args, env) -> (True, value) | None.  effect_names: callee names whose calls are
         observable effects (recorded with evaluated args)."""
         self.call_hook = call_hook
@@ -26,6 +26,8 @@ class Interp:
         self.budget = budget
         self.steps = 0
         self.nodes = []         # effect statements, referenced by index from environments (kept out of deepcopy)
+        self.resolver = resolver    # resolver(call node) -> FunctionDef of a repository helper to interpret in place (same receiver), or None
+        self.depth = depth
 
     # ---------------------------------------------------------------- expressions
     def value(self, node, env):
@@ -78,6 +80,10 @@ class Interp:
             r = self.call_hook(n, env, self)
             if r is not None:
                 return r
+        if self.resolver is not None and self.depth < 3:
+            callee = self.resolver(n)
+            if callee is not None:
+                return (True, self._inline(n, callee, env))
         if isinstance(fn, ast.Attribute) and fn.attr == 'join' and len(n.args) == 1:
             sep = self.value(fn.value, env)
             seq = self.value(n.args[0], env)
@@ -115,6 +121,43 @@ class Interp:
             if isinstance(base, (list, set)):
                 return (True, base.copy())
         return None
+
+    def _inline(self, call, callee, env):
+        """Interpret a resolved helper in place: parameters bound to the evaluated arguments, `self.*` facts inherited.
+        The helper must finish on a single path with a computable return value."""
+        params = [a.arg for a in callee.args.args]
+        skip_self = bool(params) and params[0] in ('self', 'cls') and isinstance(call.func, ast.Attribute)
+        if skip_self:
+            params = params[1:]
+        e2 = {k: v for k, v in env.items() if isinstance(k, str) and (k == 'self' or k.startswith('self.'))}
+        defaults = callee.args.defaults
+        for p, d in zip(params[len(params) - len(defaults):], defaults):
+            e2[p] = self.value(d, {})
+        if len(call.args) > len(params):
+            raise Unknown('call of %s with more arguments than parameters' % callee.name)
+        for p, a in zip(params, call.args):
+            e2[p] = self.value(a, env)
+        for k in call.keywords:
+            if k.arg is None or k.arg not in params:
+                raise Unknown('call of %s with unsupported keyword' % callee.name)
+            e2[k.arg] = self.value(k.value, env)
+        missing = [p for p in params if p not in e2]
+        if missing:
+            raise Unknown('call of %s without a value for %s' % (callee.name, missing))
+        sub = Interp(self.call_hook, self.effect_names, self.budget, self.resolver, self.depth + 1)
+        finals = sub.run(callee.body, e2)
+        if len(finals) != 1 or finals[0].get('<forks>'):
+            raise Unknown('helper %s does not evaluate on a single path here (forks: %s)' % (callee.name, [f.get('<forks>') for f in finals][:2]))
+        fe = finals[0]
+        if fe.get('<outcome>') == 'raise':
+            raise Unknown('helper %s raises on this path' % callee.name)
+        for nm, args, k in fe.get('<effects>', []):
+            self.nodes.append(sub.nodes[k])
+            env.setdefault('<effects>', []).append((nm, args, len(self.nodes) - 1))
+        v = fe.get('<return>') if fe.get('<outcome>') == 'return' else None
+        if isinstance(v, Opaque):
+            raise Unknown('helper %s returns an uncomputable value' % callee.name)
+        return v
 
     def truth(self, node, env):
         """True / False / None (unknown)."""
